@@ -591,6 +591,12 @@ class ServerWorld:
             await s.lstat(p)
         elif op == 'setstat':
             await s.setstat(p, asyncssh.SFTPAttrs(permissions=0o755))
+        elif op == 'lsetstat':
+            await s.setstat(p, asyncssh.SFTPAttrs(atime=1000000000,
+                                                  mtime=1000000000),
+                            follow_symlinks=False)
+        elif op == 'realpath_stat':
+            await s.realpath(p, b'.', check=asyncssh.FXRP_STAT_IF_EXISTS)
         elif op == 'truncate':
             await s.truncate(p, 0)
         elif op == 'utime':
@@ -897,7 +903,7 @@ class DownloadWorld:
 # replay of PathConfineFS request sequences
 # --------------------------------------------------------------------------
 
-MUTATING_OPS = {'open_w', 'open_x', 'open_a', 'mkdir', 'rmdir', 'remove',
+MUTATING_OPS = {'open_w', 'open_x', 'open_a', 'mkdir', 'rmdir', 'remove', 'lsetstat',
                 'rename', 'posix_rename', 'link', 'symlink', 'truncate',
                 'setstat', 'utime'}
 STATUS_FREE_OPS = {'readlink', 'realpath'}   # status depends on reverse map
